@@ -480,6 +480,8 @@ package wasp
 //@   ensures [C16] #wire[2] > old(#wire)[2] && asptr(#lastWirePkt, *packet.ConnAck).ReturnCode == 0 ==> #lastAuthOk && #serves == old(#serves) + 1 && #metaCreates == old(#metaCreates) + 1
 // C16/C17: the session is created in the mount point the credential store assigned
 //@   ensures [C16] #serves == old(#serves) + 1 ==> asptr(#lastServed, *sessions.Session).mountPoint == #lastAuthMP && #lastMetaCreatedMP == #lastAuthMP
+// C17: the session served lives in the mount point of the authenticated principal (and in no other namespace, e.g. the listener's name)
+//@   ensures [C17] #serves == old(#serves) + 1 ==> asptr(#lastServed, *sessions.Session).mountPoint == #lastAuthMP && #lastMetaCreatedMP == #lastAuthMP
 // C12: the record previously resolved for this client identifier is deleted before the new one is created
 //@ callsite (*setupWorker).setup -> (distributed.SessionMetadatasState).Create(st distributed.SessionMetadatasState, id string, clientID string, connectedAt int64, lwt *packet.Publish, mountpoint string)
 //@   requires [C12] #lastLookupFound ==> #metaDeletes == old(#metaDeletes) + 1 && #lastMetaDeleted == #lastLookupSession
@@ -511,6 +513,9 @@ package wasp
 //@   invariant s != nil && s.decoder != nil && s.manager != nil && wf_manager(s.manager) && wf_session(session)
 //@ callsite (*connectionWorker).serve -> (*manager).shutdownSession(ctx2 context.Context, sess *sessions.Session)
 //@   requires [C11] sess == session
+// C13: the teardown (which publishes the will) runs under the connection's outer context, not under the session context that
+// has just been cancelled
+//@   requires [C13] ctx2 == ctx
 
 // teardown (C11, C12, C13)
 //@ func (*manager).shutdownSession(ctx context.Context, session *sessions.Session)
